@@ -147,6 +147,15 @@ def classify_nonfixpoint(t: str, t1: str) -> str:
           if re.sub(pat, "M.", la[2:]) == re.sub(pat, "M.", lb[2:]):
             return ("two import aliases of one module: the reference prefix switches to the "
                     "other alias on re-read")
+  changed = [l[2:] for l in removed + added]
+  if changed and all(re.fullmatch(r"from typing import .*|import typing", l) for l in changed):
+    typing_names = ("Any|Optional|Union|Callable|Literal|Generic|Type|List|Dict|Tuple|Final|"
+                    "ClassVar|Annotated|Never|Protocol|TypeVar|NamedTuple|overload|final")
+    if re.search(rf"^[ ]+(?:(?:{typing_names})\s*:|def (?:{typing_names})\()", t, re.M):
+      return ("typing import bookkeeping: a class member named like a typing member (e.g. "
+              "'Any') makes the 'from typing import' list / 'import typing' line change on re-read")
+    return "typing import lines differ on re-read: " + token_diff(
+        (removed or ["- "])[0][2:], (added or ["+ "])[0][2:])
   tag, xa, xb = first_line_diff(t, t1)
   if xa and xb:
     return "line re-printed differently: " + token_diff(xa[0], xb[0])
@@ -196,6 +205,10 @@ def _lit_value(v):
       return "b:" + repr(pv)
     if isinstance(pv, str):
       return "s:" + repr(pv)
+    if isinstance(pv, bool):
+      return "c:" + str(pv)
+    if isinstance(pv, int):
+      return "i:" + repr(pv)   # output.py LITERAL mode stores repr(int)
     return "r:" + v
   if isinstance(v, pytd.Type):
     return "t:" + "?"
@@ -219,6 +232,8 @@ class Summarizer:
       n = n[len("builtins."):]
     if n == "NoneType":
       n = "None"
+    if n in ("typing.Never", "typing.NoReturn"):
+      n = "<nothing>"        # printer: "a prettier alias for nothing"
     return n
 
   def t(self, t, in_param=False) -> str:
@@ -226,9 +241,9 @@ class Summarizer:
     if t is None:
       return "<none>"
     if isinstance(t, pytd.AnythingType):
-      return "Any"
+      return "<Any>"         # not "Any": an unresolved NamedType('Any') must not look the same
     if isinstance(t, pytd.NothingType):
-      return "nothing"
+      return "<nothing>"
     if isinstance(t, (pytd.NamedType, pytd.ClassType, pytd.LateType)):
       return self.nm(t.name)
     if isinstance(t, pytd.TypeParameter):
@@ -238,7 +253,8 @@ class Summarizer:
     if isinstance(t, pytd.Literal):
       return "Literal[" + _lit_value(t.value) + "]"
     if isinstance(t, pytd.Annotated):
-      return "Annotated[" + self.t(t.base_type) + "," + ",".join(t.annotations) + "]"
+      return ("Annotated[" + self.t(t.base_type, in_param) + "," + ",".join(t.annotations) +
+              "]")
     if isinstance(t, pytd.UnionType):
       ms = {self.t(m, in_param) for m in t.type_list}
       if in_param:
@@ -250,14 +266,15 @@ class Summarizer:
     if isinstance(t, pytd.IntersectionType):
       return "&".join(sorted(self.t(m) for m in t.type_list))
     if isinstance(t, pytd.CallableType):
-      return ("Callable[[" + ",".join(self.t(a) for a in t.args) + "]," + self.t(t.ret) + "]")
+      return ("Callable[[" + ",".join(self.t(a, in_param) for a in t.args) + "]," +
+              self.t(t.ret, in_param) + "]")
     if isinstance(t, pytd.TupleType):
-      return "tuple{" + ",".join(self.t(a) for a in t.parameters) + "}"
+      return "tuple{" + ",".join(self.t(a, in_param) for a in t.parameters) + "}"
     if isinstance(t, pytd.Concatenate):
-      return "Concatenate[" + ",".join(self.t(a) for a in t.parameters) + "]"
+      return "Concatenate[" + ",".join(self.t(a, in_param) for a in t.parameters) + "]"
     if isinstance(t, pytd.GenericType):
       base = self.nm(t.base_type.name)
-      ps = [self.t(a) for a in t.parameters]
+      ps = [self.t(a, in_param) for a in t.parameters]
       if base == "tuple":
         return "tuple[" + ",".join(ps) + ",...]"
       if base == "typing.Callable" and isinstance(t.parameters[0], pytd.AnythingType):
@@ -277,12 +294,12 @@ class Summarizer:
       return None
     t = p.type
     if isinstance(t, pytd.GenericType) and self.nm(t.base_type.name) == container:
-      return [p.name, self.t(t.parameters[-1])]
+      return [p.name, self.t(t.parameters[-1], in_param=True)]
     if isinstance(t, (pytd.NamedType, pytd.ClassType)) and self.nm(t.name) == container:
-      return [p.name, "Any"]
+      return [p.name, "<Any>"]
     if isinstance(t, pytd.AnythingType):
-      return [p.name, "Any"]
-    return [p.name, "other:" + self.t(t)]
+      return [p.name, "<Any>"]
+    return [p.name, "other:" + self.t(t, in_param=True)]
 
   def sig(self, s, cls_names, fname, kind):
     from pytype.pytd import pytd
@@ -291,9 +308,9 @@ class Summarizer:
       ts = self.t(p.type, in_param=True)
       if i == 0 and cls_names and kind != "staticmethod":
         bare = ts.split("[", 1)[0]
-        if p.name == "self" and (ts == "Any" or bare in cls_names):
+        if p.name == "self" and (ts == "<Any>" or bare in cls_names):
           ts = "SELF"
-        elif p.name == "cls" and (ts == "Any" or (
+        elif p.name == "cls" and (ts == "<Any>" or (
             ts.startswith("type[") and ts[5:-1].split("[", 1)[0] in cls_names)):
           ts = "CLS"
       mt = self.t(p.mutated_type) if p.mutated_type is not None else None
@@ -344,6 +361,10 @@ class Summarizer:
   def alias(self, a):
     return [self.nm(a.name), self.t(a.type)]
 
+  def plain_import(self, a):
+    from pytype.pytd import pytd
+    return isinstance(a.type, pytd.Module) and self.nm(a.name) == a.type.module_name
+
   def tparam(self, tp):
     d = tp.default
     if isinstance(d, tuple):
@@ -358,7 +379,8 @@ class Summarizer:
     return {
         "constants": sorted(self.const(c) for c in u.constants),
         "type_params": sorted(self.tparam(t) for t in u.type_params),
-        "aliases": sorted(self.alias(a) for a in u.aliases),
+        "aliases": sorted(self.alias(a) for a in u.aliases if not self.plain_import(a)),
+        "plain_imports": sorted(self.nm(a.name) for a in u.aliases if self.plain_import(a)),
         "classes": sorted((self.klass(c) for c in u.classes), key=lambda d: d["name"]),
         "functions": sorted((self.func(f) for f in u.functions), key=lambda d: d["name"]),
     }
@@ -394,6 +416,22 @@ def first_struct_diff(a, b, path=""):
   if a != b:
     return path, a, b
   return None
+
+
+def struct_key(path, x, y, text):
+  """Mechanism key of a structural difference (printed AST vs re-read AST)."""
+  if isinstance(x, str) and isinstance(y, str):
+    if x != y and "builtins.tuple[" in text and _same_modulo_tuple(x, y):
+      return ("homogeneous tuple printed as 'builtins.tuple[X]' (no ', ...') when the name "
+              "'tuple' is shadowed locally; re-read as a fixed-length tuple")
+    return f"re-read declarations differ from what was printed at {path}: " + token_diff(x, y)
+  return (f"re-read declarations differ from what was printed at {path}: "
+          f"«{_leaf_shape(x)}» => «{_leaf_shape(y)}»")
+
+
+def _same_modulo_tuple(x, y):
+  strip = lambda s: s.replace(",...]", "]").replace("tuple{", "tuple[").replace("}", "]")
+  return strip(x) == strip(y)
 
 
 def _leaf_shape(x):
@@ -436,7 +474,16 @@ def _check_text(text, emitted, unit, pyver, counters):
     if t.endswith("\n"):
       t = t[:-1]             # io._output_ast: result += "\n"
 
+  mechanisms = set()
+
   def v(key, stage, **kw):
+    # one mechanism is reported once per text: a non-fixed-point usually shows again
+    # in the second print and in canonical_pyi; those are consequences, not new facts
+    mech = key.split(": ", 1)[-1] if stage in ("fixpoint0", "fixpoint1", "canonical") else key
+    if mech in mechanisms:
+      c["consequence_of_reported_mechanism"] += 1
+      return
+    mechanisms.add(mech)
     d = {"key": key, "stage": stage, "text": text}
     d.update(kw)
     out.append(d)
@@ -466,24 +513,26 @@ def _check_text(text, emitted, unit, pyver, counters):
   if not fix0:
     c["fixpoint0_failed"] += 1
     if emitted:
-      v("emitted text is not a fixed point: " + classify_nonfixpoint(t, t1), "fixpoint0",
+      v("not a fixed point of parse-print: " + classify_nonfixpoint(t, t1), "fixpoint0",
         reprinted=t1)
   # second round
-  a1 = a0
+  # NOTE: printing an AST fills the `_name2item` lookup caches of its classes and
+  # msgspec's generated __eq__ compares that field, so an AST that has been printed
+  # is != a fresh parse of the same text.  ASTeq is therefore always applied to
+  # ASTs that were parsed and never printed or looked up.
   try:
-    if not fix0:
-      a1 = parser.parse_string(t1, options=opts)
     t2 = pytd_utils.Print(parser.parse_string(t1, options=opts))
     c["fixpoint1_checked"] += 1
     if t2 != t1:
       c["fixpoint1_failed"] += 1
-      v("second print is not a fixed point: " + classify_nonfixpoint(t1, t2), "fixpoint1",
+      v("not a fixed point of parse-print: " + classify_nonfixpoint(t1, t2), "fixpoint1",
         reprinted=t1, reprinted2=t2)
+    a1 = parser.parse_string(t1, options=opts)
     a2 = parser.parse_string(t2, options=opts)
     c["asteq_checked"] += 1
-    if not pytd_utils.ASTeq(a1, a2):
+    if t2 == t1 and not pytd_utils.ASTeq(a1, a2):
       v("ASTeq(parse(t1), parse(Print(parse(t1)))) is false", "asteq", reprinted=t1)
-    if fix0 and not pytd_utils.ASTeq(a0, parser.parse_string(t1, options=opts)):
+    if fix0 and not pytd_utils.ASTeq(parser.parse_string(t, options=opts), a1):
       v("parse is not a function of the text (two parses of one text differ)", "asteq")
   except Exception as e:  # pylint: disable=broad-except
     v(classify_exception("re-printed stub does not parse", e), "parse1", reprinted=t1,
@@ -495,7 +544,7 @@ def _check_text(text, emitted, unit, pyver, counters):
     c["canonical_checked"] += 1
     if c1 != c2:
       c["canonical_failed"] += 1
-      v("canonical_pyi is not idempotent: " + classify_nonfixpoint(c1, c2), "canonical",
+      v("not a fixed point of parse-print: " + classify_nonfixpoint(c1, c2), "canonical",
         canonical1=c1, canonical2=c2)
   except Exception as e:  # pylint: disable=broad-except
     v(classify_exception("canonical_pyi raises", e), "canonical", error=str(e)[-800:])
@@ -504,14 +553,17 @@ def _check_text(text, emitted, unit, pyver, counters):
     try:
       su = summarize(unit)
       sp = summarize(a0)
+      # `import m` lines the printer adds for referenced modules come back as
+      # Alias(m, Module(m)): the re-read set may only grow, by plain imports.
+      pu, pp = su.pop("plain_imports"), sp.pop("plain_imports")
+      if not set(pu) <= set(pp):
+        su["plain_imports_lost"] = sorted(set(pu) - set(pp))
       c["structure_checked"] += 1
       d = first_struct_diff(su, sp)
       if d:
         c["structure_failed"] += 1
         path, x, y = d
-        v(f"re-read declarations differ from what was printed at {path}: "
-          f"«{_leaf_shape(x)}» => «{_leaf_shape(y)}»", "structure",
-          path=path, printed=x, reread=y)
+        v(struct_key(path, x, y, t), "structure", path=path, printed=x, reread=y)
     except NotJudged as e:
       c["structure_not_judged"] += 1
       c["structure_not_judged:" + str(e)] += 1
